@@ -27,6 +27,10 @@ pub struct Layout {
     pub trailing_comments: bool,
     /// join consecutive simple statements with a colon instead of a line end
     pub colon_join: bool,
+    /// write every loop / SELECT CASE whose bodies hold only simple statements and such loops on
+    /// ONE source line (`FOR I = 1 TO 2: FOR J = 1 TO 3: PRINT I; J: NEXT: NEXT`), so that nested
+    /// constructs share their row
+    pub one_line_blocks: bool,
 }
 
 impl Default for Layout {
@@ -40,7 +44,18 @@ impl Default for Layout {
             blank_lines: false,
             trailing_comments: false,
             colon_join: false,
+            one_line_blocks: false,
         }
+    }
+}
+
+/// Can the statement be written on one source line together with its neighbours?
+pub fn inlineable(s: &Stmt) -> bool {
+    match &s.k {
+        K::If { .. } | K::Label(_) | K::Comment(_) | K::Data(_) => false,
+        K::For { body, .. } | K::While(_, body) | K::Do(_, _, body) => body.iter().all(inlineable),
+        K::Select { cases, els, .. } => cases.iter().all(|(_, b)| b.iter().all(inlineable)) && els.as_ref().map(|b| b.iter().all(inlineable)).unwrap_or(true),
+        _ => true,
     }
 }
 
@@ -78,6 +93,8 @@ struct P<'a> {
     depth: usize,
     /// the previous thing on the current line was a simple statement (for colon joining)
     line_open: bool,
+    /// > 0 while a block statement is being written on one line (Layout::one_line_blocks)
+    inline: usize,
 }
 
 impl<'a> P<'a> {
@@ -121,7 +138,7 @@ impl<'a> P<'a> {
 
     /// Starts a statement: either on a fresh line or joined to the previous simple statement.
     fn begin(&mut self, id: Id, simple: bool) -> u32 {
-        if self.line_open && simple && self.l.colon_join {
+        if (self.line_open && simple && self.l.colon_join) || (self.inline > 0 && self.col > 1) {
             self.push(":");
             let b = self.l.blank.to_string();
             self.push(&b);
@@ -416,6 +433,14 @@ impl<'a> P<'a> {
 
     /// A line that belongs to a block statement (ELSE, NEXT, END IF, ...).
     fn aux_line(&mut self, text: &str) {
+        if self.inline > 0 && self.col > 1 {
+            let b = self.l.blank.to_string();
+            self.push(":");
+            self.push(&b);
+            self.push(text);
+            self.line_open = false;
+            return;
+        }
         if self.col > 1 {
             self.newline();
         }
@@ -426,6 +451,25 @@ impl<'a> P<'a> {
     }
 
     fn stmt(&mut self, s: &Stmt) {
+        let one_line = self.l.one_line_blocks
+            && self.inline == 0
+            && matches!(&s.k, K::For { .. } | K::While(..) | K::Do(..) | K::Select { .. })
+            && inlineable(s);
+        if one_line {
+            // start on a fresh line, then keep everything up to the closing keyword on it
+            if self.col > 1 {
+                self.newline();
+            }
+            self.inline += 1;
+            self.stmt_inner(s);
+            self.inline -= 1;
+            self.line_open = false;
+            return;
+        }
+        self.stmt_inner(s);
+    }
+
+    fn stmt_inner(&mut self, s: &Stmt) {
         let b = self.l.blank.to_string();
         match &s.k {
             K::If { arms, els, single_line } if *single_line => {
@@ -603,6 +647,7 @@ pub fn print(prog: &Prog, layout: &Layout) -> Printed {
         pos: BTreeMap::new(),
         depth: 0,
         line_open: false,
+        inline: 0,
     };
     let b = layout.blank.to_string();
     for (ty, from, to) in &prog.deftypes {
